@@ -123,13 +123,28 @@ def rule_r2(ctx):
                     other = [x for x in g.nodes if x.kind == "branch" and x.ast is getattr(t, "_guard_of", t) and x.polarity == unknown_branch_pol]
                     if other and leads_only_to_raise(g, other[0]):
                         ok = True
+        # the same refusal through a lookup: cast = _param_map.get(name); if cast is None: raise
+        castvar = None
+        val0 = c.args[2] if len(c.args) > 2 else None
+        if not ok and isinstance(val0, ast.Call) and isinstance(val0.func, ast.Name):
+            src = resolve_locals(f, val0.func)
+            if isinstance(src, ast.Call) and isinstance(src.func, ast.Attribute) and src.func.attr == "get" and "_param_map" in norm(src.func.value) and src.args and norm(src.args[0]) == key \
+                    and (len(src.args) == 1 or (isinstance(src.args[1], ast.Constant) and src.args[1].value is None)):
+                for (t, pol, b) in g.guards(n):
+                    if isinstance(t, ast.Compare) and isinstance(t.ops[0], ast.Is) and dotted(t.left) == val0.func.id and isinstance(t.comparators[0], ast.Constant) and t.comparators[0].value is None and not pol:
+                        other = [x for x in g.nodes if x.kind == "branch" and x.ast is getattr(t, "_guard_of", t) and x.polarity]
+                        if other and leads_only_to_raise(g, other[0]):
+                            ok = True
+                            castvar = val0.func.id
         if ok:
             ctx.r.ok(rid, "setattr only for names in _param_map; unknown names raise", f.loc(n.ast))
         else:
             ctx.r.violation(rid, key_of(f, None, "unknown-name-accepted"), "an unknown adjustment name is applied (or silently ignored) instead of being refused", f.loc(n.ast))
         # value goes through the cast of the same key
         val = c.args[2] if len(c.args) > 2 else None
-        if isinstance(val, ast.Call) and isinstance(val.func, ast.Subscript) and "_param_map" in norm(val.func.value) and norm(val.func.slice) == key:
+        if castvar is not None and isinstance(val, ast.Call) and isinstance(val.func, ast.Name) and val.func.id == castvar:
+            ctx.r.ok(rid, "the value is cast by the cast looked up for its name", f.loc(n.ast))
+        elif isinstance(val, ast.Call) and isinstance(val.func, ast.Subscript) and "_param_map" in norm(val.func.value) and norm(val.func.slice) == key:
             ctx.r.ok(rid, "the value is cast by _param_map[name]", f.loc(n.ast))
         else:
             ctx.r.violation(rid, key_of(f, None, "value-not-cast"), "the adjustment value is stored without the cast registered for its name: %s" % norm(val), f.loc(n.ast))
@@ -170,7 +185,19 @@ def rule_r3(ctx):
         else:
             ctx.r.ok(rid, "param %s: default present, cast %s" % (n, c.name.split(":")[-1]), "src/waitress/adjustments.py")
     pm = cls.lookup_attr("_param_map")
-    if pm is not None and norm(pm[1]) == "dict(_params)":
+    same = False
+    if pm is not None:
+        try:
+            folded = ctx.p.fold(pm[1], ctx.p.modules["adjustments"])
+            pr = cls.lookup_attr("_params")
+            fp = ctx.p.fold(pr[1], ctx.p.modules["adjustments"]) if pr else None
+            same = isinstance(folded, dict) and fp is not None and folded == dict(fp)
+        except Exception:
+            same = False
+    if pm is not None and isinstance(pm[1], ast.DictComp) and len(pm[1].generators) == 1 and not pm[1].generators[0].ifs and dotted(pm[1].generators[0].iter) == "_params" \
+            and isinstance(pm[1].generators[0].target, ast.Tuple) and [dotted(e) for e in pm[1].generators[0].target.elts] == [dotted(pm[1].key), dotted(pm[1].value)]:
+        same = True  # {name: cast for name, cast in _params}
+    if pm is not None and (norm(pm[1]) == "dict(_params)" or same):
         ctx.r.ok(rid, "_param_map = dict(_params)", "src/waitress/adjustments.py")
     else:
         ctx.r.violation(rid, "param-map", "_param_map is not dict(_params): %s" % (norm(pm[1]) if pm else None), "src/waitress/adjustments.py")
@@ -471,7 +498,26 @@ def rule_r6(ctx, rid="C20.R6"):
     else:
         ctx.r.violation(rid, key_of(f, None, "raw-value"), "valued options are not passed through unchanged", f.loc())
     ls = [n for n in g.nodes if n.kind == "stmt" and isinstance(n.ast, ast.Assign) and isinstance(n.ast.targets[0], ast.Subscript) and norm(n.ast.targets[0].slice) == "'listen'"]
-    if ls and "{} {}" in norm(ls[0].ast.value) and "kw.get('listen'" in norm(ls[0].ast.value) and "value" in norm(ls[0].ast.value):
+    def _accumulates(n):
+        """kw['listen'] = <previous value or ''> SP <this value>: read as a string template with the locals resolved"""
+        from .common import str_template, template_text
+        parts = str_template(n.ast.value)
+        if parts is None or template_text(parts, names=False) != "{} {}":
+            return False
+        holes = [pt[1] for pt in parts if not isinstance(pt, str)]
+        if len(holes) != 2 or holes[1] != "value":
+            return False
+        prev = holes[0]
+        pe = ast.parse(prev, mode="eval").body
+        if isinstance(pe, ast.Name):
+            pe = resolve_locals(f, pe) or pe
+        txt = norm(pe).replace('"', "'")
+        if txt in ("kw.get('listen', '')", "kw['listen'] if 'listen' in kw else ''"):
+            return True
+        # the two cases written as two statements under `'listen' in kw` / its negation
+        member = [pol for (t, pol) in guards_of(g, n) if isinstance(t, ast.Compare) and isinstance(t.ops[0], ast.In) and norm(t).replace('"', "'") == "'listen' in kw"]
+        return (txt == "kw['listen']" and member == [True]) or (txt == "''" and member == [False])
+    if ls and (("{} {}" in norm(ls[0].ast.value) and "kw.get('listen'" in norm(ls[0].ast.value) and "value" in norm(ls[0].ast.value)) or all(_accumulates(x) for x in ls)):
         ctx.r.ok(rid, "--listen accumulates, space separated (aslist splits on whitespace)", f.loc(ls[0].ast))
     else:
         ctx.r.violation(rid, key_of(f, None, "listen-accumulate"), "repeated --listen options do not accumulate space-separated", f.loc())
